@@ -29,7 +29,9 @@ def run():
     chk.cov["rule"] = ("bulk on the default pool (2 workers) and on a second pool (4 workers; local != global "
                        "worker numbers) for shapes 0, 1, W-1..W+1, 8W+1, 16W+3, chunk*W*8 +-1, 257, random up to "
                        "1e5 and 2^31-1, 2^31+1, 2^32+5 (thorough: + 2^27+3, 2^32-1), shape types int, unsigned, "
-                       "long, size_t, int64_t, throwing sets {none, first, last, one per worker, all}; shapes <= 64 "
+                       "long, size_t, int64_t, throwing sets {none, first, last, one per worker, all}; shapes of one index per "
+                       "worker whose calls return together; bursts of 150 such operations back to back with the operation "
+                       "states kept alive (exactly one completion each, after all calls returned); shapes <= 64 "
                        "log every call/return/completion, larger ones a measured summary (per-index table up to "
                        "2^26, count+sum above); validated by TLC against BulkAbs; distinct = distinct (shape, "
                        "pool, type, throwers) records")
